@@ -60,6 +60,32 @@ def real_check(pk_text, sig_text, msg):
         return K.canon_exc(inner) if inner is not e else f'err Other {type(e).__name__}'
 
 
+def real_check_optimized(curve, pub, raw_sig, msg, key_as_bytes):
+    """the same instruction with the signature (and, alternately, the key) given in its OPTIMIZED Micheline form — raw bytes, the way
+    values arrive from UNPACK, from a node in optimized mode, or from `PUSH signature 0x…`"""
+    from pytezos.context.impl import ExecutionContext
+    from pytezos.michelson.instructions.crypto import CheckSignatureInstruction
+    from pytezos.michelson.stack import MichelsonStack
+    from pytezos.michelson.types import BytesType, KeyType, SignatureType
+    try:
+        st = MichelsonStack()
+        st.push(BytesType.from_value(msg))
+        st.push(SignatureType.from_micheline_value({'bytes': raw_sig.hex()}))
+        if key_as_bytes:
+            tag = {'ed': 0, 'sp': 1, 'p2': 2, 'BL': 3}[curve]
+            st.push(KeyType.from_micheline_value({'bytes': (bytes([tag]) + pub).hex()}))
+        else:
+            st.push(KeyType.from_value(K.tz_encode({'ed': 'edpk', 'sp': 'sppk', 'p2': 'p2pk', 'BL': 'BLpk'}[curve], pub)))
+    except Exception as e:      # noqa: BLE001
+        return f'untypable {type(e).__name__}'
+    try:
+        CheckSignatureInstruction.execute(st, [], ExecutionContext())
+        return 'true' if bool(st.pop1()) else 'false'
+    except Exception as e:      # noqa: BLE001
+        inner = e.__cause__ or e.__context__ or e
+        return f'err {type(inner).__name__}'
+
+
 def valid_point(curve, pk):
     """is `pk` a public point an independent implementation can parse?"""
     try:
@@ -182,6 +208,14 @@ def eval_case(case):
         rec('check', {'what': 'own', 'generic': generic}, check_line(curve, pk_text, pub, text, em), c)
         if c != 'true':
             viol.append((f'check-signature-differs:{curve}', f'CHECK_SIGNATURE gives {c} where Key.verify returned True', {**base, 'signature': text}))
+        if not generic or curve == 'BL':
+            for key_as_bytes in (False, True):
+                c2 = real_check_optimized(curve, pub, raw, em, key_as_bytes)
+                if c2 != 'true':
+                    viol.append((f'check-signature-optimized-form:{curve}', f'CHECK_SIGNATURE on the signature given as bytes 0x{raw.hex()[:16]}… '
+                                 f'({"key as bytes too" if key_as_bytes else "key as text"}) gives {c2}; the same signature as text verifies',
+                                 {**base, 'signature_bytes': raw.hex(), 'key_as_bytes': key_as_bytes}))
+                    break
 
     # ---- alterations
     def expect_reject(what, vkey, vpub, vcurve, sig_text, vmsg, key_is_valid=True, do_check=True):
